@@ -5,12 +5,13 @@ import SageoptModel.Drv.SigL
 import SageoptModel.Drv.SigCalc
 import SageoptModel.Drv.Compile
 import SageoptModel.Drv.Sage
+import SageoptModel.Drv.Vars
 open Lean
 
 namespace Sageopt.Drv
 
 def allHandlers : List (String × Handler) :=
-  GF2.handlers ++ Solvers.handlers ++ Sig.handlers ++ SigL.handlers ++ SigCalc.handlers ++ Compile.handlers ++ Sage.handlers
+  GF2.handlers ++ Solvers.handlers ++ Sig.handlers ++ SigL.handlers ++ SigCalc.handlers ++ Compile.handlers ++ Sage.handlers ++ Vars.handlers
 
 def dispatch (line : String) : String :=
   match Json.parse line with
